@@ -21,9 +21,9 @@ use std::sync::{Arc, Mutex};
 use std::task::{Context, Poll};
 use std::time::Duration;
 
-/// periods in nanoseconds: whole milliseconds, fractional milliseconds, sub-millisecond, whole seconds and a
-/// period with a nanosecond part (the timer must be asked for exactly the period, whatever its unit)
-pub const PERIODS_NS: [u64; 8] = [10_000_000, 10_000_000, 15_000_000, 7_000_000, 30_000_000, 2_750_000, 999_000, 1_000_000_007];
+/// periods in nanoseconds: whole milliseconds, fractional milliseconds, sub-millisecond, whole seconds a period with a
+/// nanosecond part and the zero period (the timer must be asked for exactly the period, whatever its unit)
+pub const PERIODS_NS: [u64; 9] = [10_000_000, 10_000_000, 15_000_000, 7_000_000, 30_000_000, 2_750_000, 999_000, 1_000_000_007, 0];
 
 #[derive(Clone, Copy, Debug, Serialize, Deserialize, PartialEq, Eq)]
 pub enum SpawnPlan {
@@ -242,7 +242,7 @@ pub fn decode_clock(bytes: &[u8]) -> ClockScn {
     let periods = (0..n_src).map(|_| d.below(PERIODS_NS.len()) as u8).collect();
     let n_sinks = 1 + d.below(4);
     let sinks = (0..n_sinks)
-        .map(|_| match d.below(4) {
+        .map(|_| match d.below(5) {
             0 => SinkSpec::default(),
             1 => SinkSpec { forget_tb: d.below(2) == 1, ..SinkSpec::default() },
             2 => {
@@ -252,7 +252,18 @@ pub fn decode_clock(bytes: &[u8]) -> ClockScn {
                 react.push(t);
                 SinkSpec { react, react_default: React::Nothing, credit: false, pull_after_end: false, rogue: false, forget_tb: false }
             }
-            _ => SinkSpec { react: vec![], react_default: React::Pull, credit: false, pull_after_end: false, rogue: false, forget_tb: false },
+            3 => SinkSpec { react: vec![], react_default: React::Pull, credit: false, pull_after_end: false, rogue: false, forget_tb: false },
+            _ => {
+                // a slow handler at some positions (0 = the Handshake handler): a timer expires while it runs
+                let n = 1 + d.below(5);
+                let react = (0..n).map(|_| if d.below(2) == 1 { React::Poke(d.u8()) } else { React::Nothing }).collect();
+                let tail = d.pick(&[React::Nothing, React::Nothing, React::Terminate]);
+                let mut react: Vec<React> = react;
+                if tail != React::Nothing {
+                    react.push(tail);
+                }
+                SinkSpec { react, react_default: React::Nothing, credit: false, pull_after_end: false, rogue: false, forget_tb: false }
+            }
         })
         .collect();
     let mut steps = vec![CStep::Subscribe { src: 0, spawn: SpawnPlan::Ok, inline_poll: false }];
@@ -294,6 +305,14 @@ pub fn run_clock(cs: &ClockScn) -> (History, Vec<(u8, SpawnPlan)>) {
     let sc = dummy_scenario(cs, n_subs);
     let w = World::new(&sc);
     let exec = VExec::new(&w);
+    {
+        // a handler that takes its time: virtual time moves on to the next expiry while the handler is running
+        let e = exec.clone();
+        w.set_poke_hook(Some(Arc::new(move |k| {
+            e.poll_unstarted();
+            e.fire(k);
+        })));
+    }
     let sources: Vec<Src<usize>> = cs
         .periods
         .iter()
